@@ -232,3 +232,69 @@ def enclosing_map(root):
 def stmt_text(n):
     """normalised text of a construct, used as position-free key"""
     return " ".join(ast.unparse(n).split())[:160]
+
+
+# --------------------------------------------------------------------------- helper inlining
+def simple_body(fnode):
+    """(params, defaults, return expr with its local single definitions inlined) for a function whose
+    body is straight-line: optional docstring, plain single assignments, one final return.  Else None."""
+    body = list(fnode.body)
+    if body and isinstance(body[0], ast.Expr) and isinstance(body[0].value, ast.Constant) and isinstance(body[0].value.value, str):
+        body = body[1:]
+    if not body or not isinstance(body[-1], ast.Return) or body[-1].value is None:
+        return None
+    env = {}
+    for st in body[:-1]:
+        if isinstance(st, ast.Assign) and len(st.targets) == 1 and isinstance(st.targets[0], ast.Name) and st.targets[0].id not in env:
+            env[st.targets[0].id] = st.value
+        else:
+            return None
+    a = fnode.args
+    if a.vararg or a.kwarg:
+        return None
+    params = [p.arg for p in a.posonlyargs + a.args]
+    defaults = dict(zip(params[len(params) - len(a.defaults):], a.defaults))
+    for p, d in zip(a.kwonlyargs, a.kw_defaults):
+        params.append(p.arg)
+        if d is not None:
+            defaults[p.arg] = d
+    # names assigned in the body must not shadow parameters that are also read
+    ret = inline(body[-1].value, env)
+    return params, defaults, ret
+
+
+def inline_calls(e, R, mod, depth=3):
+    """replace calls to straight-line module-level repository helpers by their return expression"""
+    if depth <= 0:
+        return e
+
+    class Inl(ast.NodeTransformer):
+        def visit_Call(self, n):
+            self.generic_visit(n)
+            if not isinstance(n.func, ast.Name):
+                return n
+            q = R.chase(mod, n.func.id)
+            f = R.funcs.get(q) if q else None
+            if f is None or f.cls is not None:
+                return n
+            sb = simple_body(f.node)
+            if sb is None:
+                return n
+            params, defaults, ret = sb
+            if any(isinstance(a, ast.Starred) for a in n.args) or any(k.arg is None for k in n.keywords):
+                return n
+            binding = {}
+            for p, a in zip(params, n.args):
+                binding[p] = a
+            for k in n.keywords:
+                binding[k.arg] = k.value
+            for p in params:
+                if p not in binding:
+                    if p in defaults:
+                        binding[p] = defaults[p]
+                    else:
+                        return n
+            out = inline(ret, binding, depth=1)
+            return inline_calls(out, R, f.mod, depth - 1)
+
+    return Inl().visit(copy.deepcopy(e))
